@@ -79,6 +79,10 @@ def run(ctx):
     from rules import c18, c10
     c18.r3(Renamed(ctx, "C18.R3", "C12.R11"), facts, "A")
     c10.r2(Renamed(ctx, "C10.R2", "C12.R12"), facts, "A")
+    # the level printed by %(log_level) / %(log_level_short_code) of a run-time-level statement, its text and its named args travel with the
+    # event through buffer growth and into the backtrace ring: every member is carried by the move operations (= C03.R4t)
+    from rules import c03
+    c03.transit_event_transfer(Renamed(ctx, "C03.R4t", "C12.R14t"), facts, "A", "C03.R4")
     # the pattern scanner never restarts from the beginning of the pattern (npos + 1): same rule as the template scanner, C19.R5d
     from rules import c19
     c19.search_never_starts_behind_npos(ctx, facts.need("quill::PatternFormatter::_generate_fmt_format_string", "A")[0], "C12.R13",
@@ -478,10 +482,25 @@ def r7_options_equality(ctx, facts):
            "a logger adopts another logger's formatter only after comparing the two option sets (%d comparison(s))" % len(uses), fn=df)
 
 
-def r9_runtime_metadata(ctx, facts):
+class _Only:
+    """forwards the obligations of the named rules only (used when one rule of a group is shared with another property)"""
+    def __init__(self, ctx, rules):
+        self._ctx, self._rules = ctx, set(rules)
+
+    def ob(self, rule, *a, **k):
+        if rule in self._rules:
+            return self._ctx.ob(rule, *a, **k)
+
+    def __getattr__(self, n):
+        return getattr(self._ctx, n)
+
+
+def r9_runtime_metadata(ctx, facts, only=None):
     """runtime-supplied source metadata (LOG_RUNTIME_METADATA): applied exactly for that kind of record, after the text was formatted;
     the four parts are cut at the separators; the metadata object found or created is the one attached to the event"""
     from rules.common import reach_under_enum
+    if only is not None:
+        ctx = _Only(ctx, only)
     dec = facts.need(BW + "_populate_transit_event_from_frontend_queue", "A")[0]
     g = dec.g
     en = facts.enum("quill::MacroMetadata::Event", "A")
@@ -505,7 +524,9 @@ def r9_runtime_metadata(ctx, facts):
     r_ = reach_under_enum(g, r"MacroMetadata::event$", names, "LogWithRuntimeMetadata")
     from rules.common import inconsistent_edges
     inc = inconsistent_edges(g, r"MacroMetadata::event$", names, "LogWithRuntimeMetadata")
-    start = [p_ for p_ in pop if p_ in r_ and not g.exists_path([g.entry_node], [p_], avoid_edges=[(b, other(t)) for (b, t) in na])]
+    # ... on both arms of the named-args test: a template with a named placeholder is formatted on the other arm, and a record that leaves
+    # it with its kind unchanged is dispatched by nobody (_process_transit_event knows no LogWithRuntimeMetadata): the statement is lost
+    start = [p_ for p_ in pop if p_ in r_]
     skipped = bool(start) and g.exists_path(start, pb, avoid_nodes=ap, avoid_edges=inc)
     after = all(g.dominates(pop, p_) for p_ in ap) if pop else False
     ctx.ob("C12.R9a", "decode:runtime-metadata-applied", not bad and not skipped and after,
